@@ -264,8 +264,45 @@ static void enumerate_all(vh_rng* r, size_t n) {
   }
 }
 
+/* the same refusals in a thread whose collector has never registered anything (empty registry):
+   only raw and stack allocations are made there */
+static var fresh_thread_refusals(var args) {
+  (void)args;
+  var sa = new_raw(Array, String);
+  var ra = new_raw(Array, Rec);
+  var tb = new_raw(Table, String, Int);
+  char b[24];
+  for (int i = 0; i < 5; i++) { snprintf(b, sizeof b, "s%04d", i); push(sa, $S(b)); push(ra, $(Rec, i, 1.5, "y")); set(tb, $S(b), $I(i)); }
+  for (int i = 0; i < 5; i++) {
+    refusals_string(get(sa, $I(i)), "element of Array<String> in a thread with an empty registry", 1);
+    refusals_scalar(get(ra, $I(i)), "element of Array<struct> in a thread with an empty registry");
+  }
+  foreach (k in tb) { refusals_string(k, "Table key in a thread with an empty registry", 1); refusals_scalar(get(tb, k), "Table value in a thread with an empty registry"); break; }
+  refusals_scalar($I(3), "stack Int in a thread with an empty registry");
+  refusals_string($S("stack"), "stack String in a thread with an empty registry", 0);
+  for (int i = 0; i < 5; i++) {
+    snprintf(b, sizeof b, "s%04d", i);
+    vh_eval();
+    /* a freed buffer shows up under ASan, or as different text */
+    if (strcmp(c_str(get(sa, $I(i))), b) != 0) { vh_violation(K("embedded-string-damaged-by-refused-operations", "thread with an empty registry"), "element %d no longer reads \"%s\"", i, b); }
+  }
+  vh_eval();
+  if (len(sa) != 5 || len(ra) != 5 || len(tb) != 5) { vh_violation(K("container-changed-by-refused-operations", "thread with an empty registry"), "lengths %zu %zu %zu", len(sa), len(ra), len(tb)); }
+  del_raw(sa); del_raw(ra); del_raw(tb);
+  vh_count("empty_registry_thread_runs");
+  return NULL;
+}
+
+static void run_fresh_thread(void) {
+  var fn = $(Function, fresh_thread_refusals);
+  var t = new_raw(Thread, fn);
+  call(t); join(t);
+  del_raw(t);
+}
+
 static void fixed(void) {
   vh_rng r; vh_rng_seed(&r, 19);
+  run_fresh_thread();
   static const size_t SZ[] = { 1, 2, 3, 7, 64 };
   for (int i = 0; i < 5; i++) {
     vh.oplen = 0; vh.oplog[0] = 0; vh.nops = 0;
@@ -305,10 +342,10 @@ static void fixed(void) {
 }
 
 static void case_random(vh_rng* r, long index) {
-  (void)index;
   size_t n = 1 + vh_below(r, 90);
   vh_op("enumeration at container size %zu", n);
   enumerate_all(r, n);
+  if (index % 4 == 0) { run_fresh_thread(); }
   vh_nontrivial();
 }
 
